@@ -46,9 +46,13 @@ def classify(desc):
     return scenarios.static_features(code)
 
 
-def run_tie(rep, tier, plan, seed_tag, pid, direction, options_list=({},), patch_unknown=0.0, with_model=True, n_random=3):
+def run_tie(rep, tier, plan, seed_tag, pid, direction, options_list=({},), patch_unknown=0.0, with_model=True, n_random=3, corpus=False):
     r = common.rng(seed_tag)
     descs = l2common.gen_descs(r, plan, options_list=options_list)
+    if corpus:
+        from harness import l2corpus
+
+        descs = l2corpus.descriptions(direction) + descs    # the regression corpus runs first
     out = l2common.run_corpus(descs, common.seed() % 100000, n_random=n_random, patch_unknown=patch_unknown,
                               timeout=120 if tier == "quick" else 240, with_model=with_model)
     n_model = 0
@@ -96,7 +100,7 @@ def run(rep, tier):
     common.standard_obligations(rep, PID, b)
     plan = PLAN_QUICK if tier == "quick" else PLAN_THOROUGH
     try:
-        run_tie(rep, tier, plan, PID, PID, "c01")
+        run_tie(rep, tier, plan, PID, PID, "c01", corpus=True)
     except RuntimeError as e:
         rep.obligation("extracted reference interpreter / model drivers build", False, str(e)[-600:])
         rep.fail("broken-tie", f"extracted drivers do not build: {str(e)[-400:]}", case={})
